@@ -50,4 +50,5 @@ def jobs(tier):
     out += mk('C11', 'deep4/ff', S.deep4('ff'))
     out += mk('C11', 'deep4/ff/wild_raise', S.deep4('ff', wild_raise=True))
     out += matrix_jobs('C11', 'm3', tier)
+    out += matrix_jobs('C11', 'm4', tier)
     return flat(out)
